@@ -45,7 +45,16 @@ class GiveWrap:
     def __call__(self, part):
         r = self.orig(part)
         if r and not self.mon.probing:
-            self.mon.accepted[self.dev.name] = self.mon.accepted.get(self.dev.name, 0) + 1
+            mon = self.mon
+            mon.accepted[self.dev.name] = mon.accepted.get(self.dev.name, 0) + 1
+            # who handed it over: the last holding device before this one in the item's own history
+            hist = [x for x in part._routing_history[:-1] if isinstance(x, PartHandler)]
+            if hist:
+                g = hist[-1]
+                if isinstance(g, Source):
+                    mon.left_source[g.name] = mon.left_source.get(g.name, 0) + 1
+                elif isinstance(g, PartProcessor):
+                    mon.left_proc.setdefault(g.name, []).append(part.id)
         return r
 
 
@@ -238,6 +247,8 @@ class Monitor:
         self.occ = {}
         self.recv_cb = {}
         self.accepted = {}
+        self.left_source = {}
+        self.left_proc = {}
         self.prod_cb = {}
         self.c = {'events': 0, 'advances': 0, 'probes': 0, 'blocked_ready': 0, 'kept_reservation': 0,
                   'handovers_after_block': 0, 'contested': 0, 'prio_ties': 0, 'records': 0, 'trace_entries': 0}
@@ -826,6 +837,11 @@ class Monitor:
                 if got != self.prod_cb.get(d.name, []):
                     self.bad('C15.produced', f'{d.name}: produced_part records {got[-3:]} differ from the finish '
                              f'occurrences {self.prod_cb.get(d.name, [])[-3:]} ({now})')
+                ids = {r[1] for r in got}
+                for pid in self.left_proc.get(d.name, []):
+                    if pid not in ids:
+                        self.bad('C15.produced', f'{d.name} handed part id {pid} downstream but has no produced_part '
+                                 f'record for it ({now})')
                 fails = [t for (t, f, _) in self.occ.get(('shutdown', d.name), []) if f]
                 lost = [(t, pid) for (t, f, pid) in self.occ.get(('shutdown', d.name), []) if f and pid is not None]
                 recs = sd.get('device_failure', {}).get(d.name, [])
@@ -851,6 +867,9 @@ class Monitor:
                 if len(recs) != d.produced_parts:
                     self.bad('C15.supplied', f'{d.name}.produced_parts={d.produced_parts} but {len(recs)} '
                              f'supplied_new_part records ({now})')
+                if d.name in self.left_source and self.left_source[d.name] != len(recs) and not self.m.late_assets:
+                    self.bad('C15.supplied', f'{self.left_source[d.name]} items of {d.name} were accepted by its downstream '
+                             f'devices but it has {len(recs)} supplied_new_part records ({now})')
             if isinstance(d, Sink):
                 tot = 0
                 recs = sd.get('received_part', {}).get(d.name, [])
